@@ -15,6 +15,7 @@ import (
 	"github.com/cosmos/cosmos-sdk/codec"
 	sdk "github.com/cosmos/cosmos-sdk/types"
 	authtypes "github.com/cosmos/cosmos-sdk/x/auth/types"
+	banktypes "github.com/cosmos/cosmos-sdk/x/bank/types"
 	govtypes "github.com/cosmos/cosmos-sdk/x/gov/types"
 
 	"github.com/ethereum/go-ethereum/accounts/abi"
@@ -35,6 +36,10 @@ var forwarderRuntime = common.FromHex("6001600054016000" + "55" + "6020360380602
 // emitter: LOG1 with topic = first calldata word and data = the rest (a look-alike event from a foreign address).
 var emitterRuntime = common.FromHex("602036038060206000376000359060" + "00a100")
 
+// double forwarder: calldata = target word | len1 word | payload1 | payload2; performs both calls in one transaction;
+// reverts if either EVM call fails.
+var forwarder2Runtime = common.FromHex("602035" + "80" + "6040600037" + "600060008260006000600035" + "5af1" + "15" + "603a57" + "80604001" + "803603" + "8082600037" + "600060008260006000600035" + "5af1" + "15" + "603a57" + "00" + "5b60006000fd")
+
 func initCode(runtime []byte) []byte {
 	n := byte(len(runtime))
 	return append([]byte{0x60, n, 0x60, 0x0c, 0x60, 0x00, 0x39, 0x60, n, 0x60, 0x00, 0xf3}, runtime...)
@@ -50,6 +55,7 @@ type Sys struct {
 	w        *world.World
 	c        *world.Chain
 	fwd, emt common.Address
+	fwd2     common.Address
 	vals     []string // operator addresses
 	// reference model
 	del   map[string]int64  // "<delegator hex>/<validator index>" -> tokens
@@ -89,9 +95,15 @@ func New(cfg Config) *Sys {
 	nonce := s.c.App.EvmKeeper.GetNonce(s.c.ReadCtx(), u1.Eth)
 	s.fwd = crypto.CreateAddress(u1.Eth, nonce)
 	s.emt = crypto.CreateAddress(u1.Eth, nonce+1)
-	r := s.w.Block(s.c, s.c.EthTxNonce(u1, nonce, nil, nil, initCode(forwarderRuntime)), s.c.EthTxNonce(u1, nonce+1, nil, nil, initCode(emitterRuntime)))
-	if !r[0].OK() || !r[1].OK() {
-		panic("helper contract deployment failed: " + r[0].VMError + r[1].VMError)
+	s.fwd2 = crypto.CreateAddress(u1.Eth, nonce+2)
+	r := s.w.Block(s.c, s.c.EthTxNonce(u1, nonce, nil, nil, initCode(forwarderRuntime)), s.c.EthTxNonce(u1, nonce+1, nil, nil, initCode(emitterRuntime)), s.c.EthTxNonce(u1, nonce+2, nil, nil, initCode(forwarder2Runtime)))
+	if !r[0].OK() || !r[1].OK() || !r[2].OK() {
+		panic("helper contract deployment failed: " + r[0].VMError + r[1].VMError + r[2].VMError)
+	}
+	// the double forwarder gets coins of its own (plain transfer: empty calldata reverts inside it, so fund it through the bank)
+	fund := banktypes.NewMsgSend(u1.Acc, sdk.AccAddress(s.fwd2.Bytes()), sdk.NewCoins(sdk.NewInt64Coin("stake", 1000)))
+	if rr := s.w.Block(s.c, s.c.CosmosTx(u1, fund)); rr[0].Code != 0 {
+		panic("funding fwd2 failed: " + rr[0].Log)
 	}
 	// fund the forwarder (it delegates its own coins) and open a proposal in its voting period
 	content := govtypes.NewTextProposal("t", "d")
@@ -201,7 +213,7 @@ type obs struct {
 }
 
 func (s *Sys) actors() map[string]common.Address {
-	return map[string]common.Address{"u1": s.c.Accounts["u1"].Eth, "u2": s.c.Accounts["u2"].Eth, "fwd": s.fwd, "emt": s.emt}
+	return map[string]common.Address{"u1": s.c.Accounts["u1"].Eth, "u2": s.c.Accounts["u2"].Eth, "fwd": s.fwd, "emt": s.emt, "fwd2": s.fwd2}
 }
 
 func (s *Sys) observe() obs {
@@ -291,7 +303,19 @@ func (s *Sys) Apply(op string) (out, class string, viols []bfs.Viol) {
 		return "advanced", "advance past the voting period", append(viols, s.compareModel(add)...)
 	}
 	path, user := f[0], s.c.Accounts[f[1]]
-	to, data := s.payload(f[2:])
+	// one or two actions (separated by "|")
+	var segs [][]string
+	cur := []string{}
+	for _, x := range f[2:] {
+		if x == "|" {
+			segs = append(segs, cur)
+			cur = []string{}
+			continue
+		}
+		cur = append(cur, x)
+	}
+	segs = append(segs, cur)
+	to, data := s.payload(segs[0])
 	var tx []byte
 	caller := user.Eth
 	switch path {
@@ -300,9 +324,15 @@ func (s *Sys) Apply(op string) (out, class string, viols []bfs.Viol) {
 	case "fwd":
 		caller = s.fwd
 		tx = s.c.EthTx(user, &s.fwd, nil, append(common.LeftPadBytes(to.Bytes(), 32), data...))
+	case "fwd2":
+		caller = s.fwd2
+		_, data2 := s.payload(segs[1])
+		cd := append(common.LeftPadBytes(to.Bytes(), 32), common.LeftPadBytes(big.NewInt(int64(len(data))).Bytes(), 32)...)
+		cd = append(append(cd, data...), data2...)
+		tx = s.c.EthTx(user, &s.fwd2, nil, cd)
 	case "fake":
 		// the look-alike contract emits exactly the event the system contract would emit for this call by `user`
-		topic, evData := s.eventFor(f[2:], user.Eth)
+		topic, evData := s.eventFor(segs[0], user.Eth)
 		tx = s.c.EthTx(user, &s.emt, nil, append(topic.Bytes(), evData...))
 	}
 	res := s.w.Block(s.c, tx)[0]
@@ -338,25 +368,27 @@ func (s *Sys) Apply(op string) (out, class string, viols []bfs.Viol) {
 		return 0
 	}
 	amt := func(x string) int64 { v, _ := new(big.Int).SetString(x, 10); return v.Int64() }
-	switch action {
-	case "delegate":
-		s.del[key(vi(f[3]))] += amt(f[4])
-	case "undelegate":
-		s.del[key(vi(f[3]))] -= amt(f[4])
-	case "redelegate":
-		s.del[key(vi(f[3]))] -= amt(f[5])
-		s.del[key(vi(f[4]))] += amt(f[5])
-	case "withdraw":
-	case "vote":
-		s.votes[caller.Hex()] = fmt.Sprintf("%s:1.000000000000000000", f[4])
-	case "wvote":
-		var parts []string
-		for _, p := range strings.Split(f[4], ",") {
-			var o, w int64
-			fmt.Sscanf(p, "%d:%d", &o, &w)
-			parts = append(parts, fmt.Sprintf("%d:%s", o, sdk.NewDecWithPrec(w, 2).String()))
+	for _, g := range segs {
+		switch g[0] {
+		case "delegate":
+			s.del[key(vi(g[1]))] += amt(g[2])
+		case "undelegate":
+			s.del[key(vi(g[1]))] -= amt(g[2])
+		case "redelegate":
+			s.del[key(vi(g[1]))] -= amt(g[3])
+			s.del[key(vi(g[2]))] += amt(g[3])
+		case "withdraw":
+		case "vote":
+			s.votes[caller.Hex()] = fmt.Sprintf("%s:1.000000000000000000", g[2])
+		case "wvote":
+			var parts []string
+			for _, p := range strings.Split(g[2], ",") {
+				var o, w int64
+				fmt.Sscanf(p, "%d:%d", &o, &w)
+				parts = append(parts, fmt.Sprintf("%d:%s", o, sdk.NewDecWithPrec(w, 2).String()))
+			}
+			s.votes[caller.Hex()] = strings.Join(parts, ",")
 		}
-		s.votes[caller.Hex()] = strings.Join(parts, ",")
 	}
 	if path == "fwd" && after.slot == before.slot {
 		add("forwarder-state-lost-on-success", op)
